@@ -90,6 +90,22 @@ namespace ip {
 		if (ec) throw boost::system::system_error(ec);
 	}
 
+	void tcp::acceptor::open(tcp protocol, boost::system::error_code& ec)
+	{
+		// socket::open() would only close the socket part: the acceptor would
+		// keep listening (without listen() having been called again) and hand
+		// out connections that were dialled to its previous endpoint
+		close(ec);
+		socket::open(protocol, ec);
+	}
+
+	void tcp::acceptor::open(tcp protocol)
+	{
+		boost::system::error_code ec;
+		open(protocol, ec);
+		if (ec) throw boost::system::system_error(ec);
+	}
+
 	void tcp::acceptor::cancel(boost::system::error_code& ec)
 	{
 		ec.clear();
